@@ -90,3 +90,12 @@ Definition gstmt (s : stmt) : bool :=
   end.
 
 Definition gprog (ss : list stmt) : bool := forallb gstmt ss.
+
+(** run by the correspondence harness on every input: a source the parser accepts must be a
+    program of the grammar (so, by soundness and completeness, its tree is the prescribed one) *)
+Definition show_gram (s : str) : str :=
+  match parse s with
+  | ParseOk ss => if gprog ss then [79; 75] else [78; 79; 84; 71; 82; 65; 77]
+  | ParseErr _ => [69; 82; 82]
+  | _ => [73; 78; 84; 69; 82; 78; 65; 76]
+  end.
